@@ -3,7 +3,8 @@
 // real handler and records every Authenticate outcome. Also the static handler.
 //
 // Scenario: {"kind":"file"|"static","table":[{"u":"alice","p":"pw","m":""}],"order":[2,0,1],
-//            "queries":[{"u":"alice","p":"pw"}]}
+//
+//	"queries":[{"u":"alice","p":"pw"}]}
 package main
 
 import (
